@@ -194,7 +194,7 @@ def parse_prints(out, tag):
 
 
 def _validate_shard(args):
-    workdir, module, path, n, env, timeout, cfgname = args
+    workdir, module, path, n, env, timeout, cfgname = args[:7]
     e = {"TRACE_FILE": path}
     if env:
         e.update(env)
@@ -213,11 +213,65 @@ def _validate_shard(args):
             cert.append(v[1:])
         elif v[0] == "INFO":
             info.append(v[1:])
+    if done is None and cfgname is None and _is_eval_error(r["out"]) and not args[-1:] == ("nobisect",):
+        # An event whose recorded answer the specification cannot even EVALUATE (an index outside a sequence, a record
+        # field that is not there) is not a behaviour the specification allows: find it by bisection and reject it, so
+        # that the other events of the shard are still judged and the verdict is total.
+        return _bisect_unevaluable(workdir, module, path, n, env, timeout)
     if done is None or done[0] != n:
         raise MachineryError("TLC trace validation did not complete for %s (%s):\n%s" % (path, module, r["out"][-3000:]))
     if done[1] != len(bad):
         raise MachineryError("TLC bad-count mismatch for %s" % path)
     return {"bad": bad, "cert": cert, "info": info, "wall": r["wall"]}
+
+
+def _is_eval_error(out):
+    return ("Error: Evaluating assumption" in out or "Error: Evaluating invariant" in out) and "OutOfMemory" not in out \
+        and "java.lang.StackOverflow" not in out
+
+
+UNEVALUABLE = "answer-outside-the-domain-of-the-specification"
+
+
+def _bisect_unevaluable(workdir, module, path, n, env, timeout, cap=6):
+    with open(path) as f:
+        lines = f.readlines()
+    bad, info, found = [], [], []
+
+    def judge(lo, hi, depth):
+        sub = "%s.bis_%d_%d" % (path, lo, hi)
+        with open(sub, "w") as f:
+            f.writelines(lines[lo:hi])
+        try:
+            res = _validate_shard((workdir, module, sub, hi - lo, env, timeout, None, "nobisect"))
+        except MachineryError as ex:
+            if not _is_eval_error(str(ex)):
+                raise
+            res = None
+        finally:
+            try:
+                os.unlink(sub)
+            except OSError:
+                pass
+        if res is not None:
+            bad.extend((lo + i, cl, more) for (i, cl, more) in res["bad"])
+            info.extend(res["info"])
+            return
+        if hi - lo == 1:
+            found.append(lo)
+            bad.append((lo + 1, UNEVALUABLE, None))
+            return
+        if len(found) >= cap:
+            # enough is known to reject the run; the rest of this part is reported as one more unevaluable stretch
+            bad.append((lo + 1, UNEVALUABLE, None))
+            return
+        mid = (lo + hi) // 2
+        judge(lo, mid, depth + 1)
+        judge(mid, hi, depth + 1)
+
+    judge(0, len(lines), 0)
+    bad.sort(key=lambda b: b[0])
+    return {"bad": bad, "cert": [], "info": info, "wall": 0.0}
 
 
 def _within(tree, node):
